@@ -117,6 +117,7 @@ class Lemma(object):
                 self.hints.append(Clause('hint', call.args[0], 'hint%d' % len(self.hints), st.lineno))
             elif k == 'induct':
                 self.induct = call.args[0].id
+                self.strong = any(kw.arg == 'strong' and ast.literal_eval(kw.value) for kw in call.keywords)
             elif k == 'props':
                 self.props = [a.value for a in call.args]
             elif k == 'uses':
